@@ -16,7 +16,7 @@ import random
 import warnings
 from pathlib import Path
 
-from . import core, lib
+from . import core, lib, spell
 from . import rules_common as rc
 
 TRUSTED = rc.TRUSTED_COMMON + [
@@ -280,10 +280,43 @@ def run(tier, seed, replay=None):
                 out.violations.append({"kind": "matcher", "what": bad, "case": case,
                                        "signature_text": f"matcher {kind} input={case['input']!r} config={case['config']!r}"})
 
+        # ------------------------------------------------ a rule that names files x a command that names the same files
+        def spell_case(case):
+            """case: spell.build's case + 'form'.  Expected without any model and without the matcher under test: the rule's
+            pattern and the command name the same file(s) (generator's construction, validated with os.path.realpath), so
+            analyze() must answer the rule's decision (with its message); different files: the rule is inert."""
+            cfg_text, subject, expected = spell.build(sc, case)
+            cfg = C.parse_config(cfg_text)
+            form = case["form"]
+            if case["rule"] == "redirect":
+                text = shell_text(WRAPPERS[form] + ["echo", "hi", ">", subject])
+            else:
+                text = shell_text(WRAPPERS[form] + list(subject))
+            dec = analyze(text, cfg)
+            out.count("c07.spell", f"{case['rule']}:{'same' if case['same'] else 'other'}")
+            out.count("c07.spell.form", form)
+            bad = None
+            if expected:
+                if dec.action != case["dec"]:
+                    bad = f"the rule names the same file(s) as the command and says {case['dec']}, but analyze() says {dec.action}"
+                elif case["dec"] == "deny" and case.get("msg") and ("M-" + case["dec"]) not in dec.reason:
+                    bad = f"deny message 'M-deny' not in reason {dec.reason!r}"
+            else:
+                v0 = analyze(text, C.Config()).action
+                if v0 != dec.action:
+                    bad = f"the rule names another file, yet the verdict is {dec.action} instead of the built-in {v0}"
+            if bad:
+                out.violations.append({"kind": "spell", "what": f"{spell.unsub(sc, cfg_text)!r} on {spell.unsub(sc, text)!r}: {bad}", "case": case,
+                                       "config": spell.unsub(sc, cfg_text), "command": spell.unsub(sc, text), "verdict": dec.action, "reason": dec.reason,
+                                       "signature_text": f"spell rule={case['rule']} form={form} tpl={case.get('tpl')} p={case['p']!r} q={case['q']!r} dec={case['dec']}"})
+
         # ------------------------------------------------ replay
         if replay:
             case = replay.get("case")
-            if case and "form" in case:
+            if case and "p" in case and "q" in case:
+                spell_case(case)
+                out.case(case)
+            elif case and "form" in case:
                 oracle_case(case)
                 out.case(case)
             elif case and "pattern" in case:
@@ -412,6 +445,56 @@ def run(tier, seed, replay=None):
             case = {"pattern": pat.rstrip("|").rstrip(), "exact": rng.random() < 0.4, "words": ws}
             literal_case(case)
             out.case(case)
+
+        # ------------------------------------------------ D. spelling families x rule kind x position x prefix form (analyze level)
+        links = spell.scratch_links(sc)
+        forms = list(WRAPPERS)
+        n_spell = 0
+        U = lambda x: spell.unsub(sc, x)
+        files = spell.scratch_files(sc)
+        fams = {n: [x for x in spell.family(pth, sc.cwd, sc.home, links, 1 if quick else 2) if spell.pathword(x)] for n, pth, _ in files}
+        TPLS = ("arg1", "name", "arg2", "mid")
+
+        def emit(i, rule, tpl, pspell, qspell, same=True):
+            nonlocal n_spell
+            mode = (i // 5) % 4
+            case = {"rule": rule, "dec": rc.VERDICTS[i % 3], "exact": mode == 1, "star": mode == 2, "msg": (i // 3) % 2 == 0,
+                    "tpl": tpl if rule != "alias" else "name", "extra": 1 if mode == 3 else 0,
+                    "p": [U(pspell)], "q": [U(qspell)], "same": same, "tail": None, "form": forms[(i * 3 + i // len(forms)) % len(forms)]}
+            spell_case(case)
+            out.case(case, nontrivial=True)
+            n_spell += 1
+
+        for fi, (name, pth, _) in enumerate(files):
+            fam = fams[name]
+            other = fams[files[(fi + 1) % len(files)][0]]
+            plain = [x for x in fam if "+" not in x.how]     # ., .., ~, ./x, ../x, x/y, /abs, ~/x, CWD/../x ...: the undecorated forms
+            i = fi * 7
+            # every undecorated form in the pattern x every undecorated form in the command x every position x every decision
+            for pspell in plain:
+                for qspell in plain:
+                    for tpl in TPLS:
+                        for _d in range(3):
+                            emit(i, "command", tpl, pspell, qspell)
+                            i += 1
+            # every member of the family in the pattern: every position, alias, redirect rule; partner, form, decision, anchor rotated
+            for k, pspell in enumerate(fam):
+                for t, tpl in enumerate(TPLS):
+                    emit(i, "command", tpl, pspell, fam[(k * 7 + t * 3 + 1) % len(fam)])
+                    i += 1
+                emit(i, "alias", "name", pspell, fam[(k * 5 + 2) % len(fam)])
+                emit(i + 1, "redirect", None, pspell, fam[(k * 3 + 4) % len(fam)])
+                emit(i + 2, "command", TPLS[k % 4], pspell, pspell)        # the pattern is the command's own text
+                i += 3
+            # every member of the family in the command
+            for k, qspell in enumerate(fam):
+                emit(i, "command", TPLS[k % 4], fam[(k * 11 + 5) % len(fam)], qspell)
+                emit(i + 1, ("alias", "redirect")[k % 2], "name", fam[(k * 13 + 6) % len(fam)], qspell)
+                i += 2
+                if k % 4 == 0:   # control: the command names another file - the rule must be inert
+                    emit(i, ("command", "alias", "redirect")[k % 3], TPLS[k % 4], fam[k], other[k % len(other)], same=False)
+                    i += 1
+        out.extra["spelling_cases"] = n_spell
 
         n, mism = core.coq_crosscheck("C07", xcheck)
         out.extra["coq_vm_crosscheck"] = {"cases": n, "mismatches": len(mism)}
